@@ -106,7 +106,9 @@ class TorchNNPureFunction(PureFunction):
 
     def _get_all_obj_params_init(self) -> List:
         # get the tensors in the torch.nn.Module to be used as params
-        named_params = list(self.obj.named_parameters())
+        # keep the duplicates: a parameter shared by several (sub)modules must be
+        # replaced under every name it is registered with
+        named_params = list(self.obj.named_parameters(remove_duplicate=False))
         if len(named_params) == 0:
             paramnames: List[str] = []
             obj_params: List[Union[torch.Tensor, torch.nn.Parameter]] = []
